@@ -6,6 +6,10 @@ package main
 // stack) the VM really is in before dispatching an instruction, and hands both to
 // the PROVED verifier (`gpymodel C12verify`, a co-process) which answers with
 // one verdict line.  V = "ok" | REJECT … | MISMATCH … ; R = run statistics.
+// [C12-ext2 g3] Besides the distinct states (`T` lines) the harness pairs, per *py.Frame, every observation with the
+// previous one of the same frame and reports every distinct pair as `S idx pc1 depth1 kinds1 blocks1 pc2 depth2 kinds2 blocks2`
+// (the verifier checks it against the abstract machine's step relation: STEP-MISMATCH) and the first observation of every
+// frame as `I idx pc depth kinds blocks` (must be pc 0, empty stack, no block: START-MISMATCH).
 
 import (
 	"bufio"
@@ -34,6 +38,11 @@ type c12Stats struct {
 	Programs     int            `json:"programs"`
 	Objects      int            `json:"objects"`
 	Observations int            `json:"observations"`
+	// [C12-ext2 g3] begin
+	Transitions int `json:"transitions"`
+	FrameStarts int `json:"frame_starts"`
+	// [C12-ext2 g3] end
+	Depth map[string]int `json:"depth"` // [C12-ext2 g1] dw/deq/dclosed/dexcl/dthm/dbelow summed over the verifier's replies
 	Instructions int64          `json:"instructions"`
 	Aborted      int            `json:"aborted_runs"`
 	Opcodes      map[string]int `json:"opcodes_executed"`
@@ -267,6 +276,106 @@ func c12Asm(line string) (string, string) {
 	return v, c12AsmSummary([]byte(code)) + " depth=" + depth
 }
 
+// [C12-ext2 g4] begin
+// ---- family `tb`: `T tb <variant> <escaped source>`: compile and run the program, take the REAL traceback of the
+// escaping exception.  V = `name:line … E:<class>` (outermost frame first); the dumped code objects and one
+// `L idx lasti lineno` line per entry go to the co-process, which recomputes each line with the Lean addr2line at
+// lasti-1; R = `a2l=ok lines=<n>` or the co-process's complaint.
+func c12Traceback(line string, vin *bufio.Writer, vout *bufio.Reader) (string, string) {
+	parts := strings.SplitN(line, " ", 4)
+	if len(parts) != 4 {
+		panic("bad case " + line)
+	}
+	desc := "<" + parts[1] + ":" + parts[2] + ">"
+	src := c12Unescape(parts[3])
+	if !strings.HasSuffix(src, "\n") {
+		src += "\n"
+	}
+	nlines := strings.Count(src, "\n") + 1
+	code, err := py.Compile(src, desc, py.ExecMode, 0, true)
+	if err != nil {
+		return "nocompile:" + errClass(err), strings.Map(func(r rune) rune {
+			if r == '\t' || r == '\n' {
+				return ' '
+			}
+			return r
+		}, fmt.Sprint(err))
+	}
+	var list []*py.Code
+	idx := map[*py.Code]int{}
+	c12Collect(code, &list, idx)
+	var runErr error
+	gopanic := ""
+	func() {
+		defer func() {
+			if e := recover(); e != nil {
+				gopanic = fmt.Sprint(e)
+			}
+		}()
+		ctx := py.NewContext(py.DefaultContextOpts())
+		defer func() {
+			defer func() { _ = recover() }()
+			ctx.Close()
+		}()
+		_, runErr = py.RunCode(ctx, code, desc, nil)
+	}()
+	if gopanic != "" {
+		return "PANIC", gopanic
+	}
+	if runErr == nil {
+		return "noexception", "-"
+	}
+	var tb *py.Traceback
+	cls := errClass(runErr)
+	switch e := runErr.(type) {
+	case py.ExceptionInfo:
+		tb = e.Traceback
+	case *py.ExceptionInfo:
+		tb = e.Traceback
+	default:
+		return "notraceback " + cls, "-"
+	}
+	var ents, ls []string
+	for ; tb != nil; tb = tb.Next {
+		ents = append(ents, fmt.Sprintf("%s:%d", tb.Frame.Code.Name, tb.Lineno))
+		if i, ok := idx[tb.Frame.Code]; ok {
+			ls = append(ls, fmt.Sprintf("L %d %d %d", i, tb.Lasti, tb.Lineno))
+		}
+		// the real Addr2Line at Lasti-1 must be what the entry carries (vm/eval.go AddTraceback)
+		if got := tb.Frame.Code.Addr2Line(tb.Lasti - 1); got != tb.Lineno {
+			return strings.Join(ents, " ") + " " + cls, fmt.Sprintf("entry line %d but Code.Addr2Line(Lasti-1) = %d", tb.Lineno, got)
+		}
+	}
+	v := strings.Join(ents, " ") + " " + cls
+	for i, c := range list {
+		vin.WriteString(c12Dump(i, c, nlines))
+		vin.WriteByte('\n')
+	}
+	for _, l := range ls {
+		vin.WriteString(l)
+		vin.WriteByte('\n')
+	}
+	vin.WriteString("E\n")
+	if err := vin.Flush(); err != nil {
+		return v, "VERIFIER-DIED:" + err.Error()
+	}
+	reply, err := vout.ReadString('\n')
+	if err != nil {
+		return v, "VERIFIER-DIED:" + err.Error()
+	}
+	reply = strings.TrimSpace(reply)
+	if strings.HasPrefix(reply, "ok ") {
+		n := "0"
+		if k := strings.Index(reply, " lines="); k >= 0 {
+			n = reply[k+7:]
+		}
+		return v, "a2l=ok lines=" + n
+	}
+	return v, reply
+}
+
+// [C12-ext2 g4] end
+
 func init() {
 	handlers["C12"] = func(args []string) handler {
 		if len(args) < 1 {
@@ -338,6 +447,10 @@ func init() {
 			switch {
 			case strings.HasPrefix(line, "A "):
 				return c12Asm(line[2:])
+			// [C12-ext2 g4] begin
+			case strings.HasPrefix(line, "T "):
+				return c12Traceback(line, vin, vout)
+			// [C12-ext2 g4] end
 			case strings.HasPrefix(line, "F file "):
 				isFile = true
 				desc = strings.TrimSpace(line[7:])
@@ -396,8 +509,22 @@ func init() {
 			}
 
 			// ---- run under the hook
-			seen := map[string]struct{}{}
+			seen := map[string]int32{} // [C12-ext2 g3] de-duplication key -> state id (was a set)
 			var obs []string
+			// [C12-ext2 g3] begin
+			// consecutive observations of the SAME frame (nested calls run other frames in between; a suspended
+			// generator frame is observed again when it is resumed): every distinct pair (state id, state id) is
+			// reported once as an `S` line, the first observation of every frame as an `I` line.  The map keeps the
+			// frames alive, so a frame pointer is never re-used within one program; it is dropped after the program.
+			type c12Prev struct {
+				sid  int32
+				rest string // "pc depth kinds blocks" of the previous observation
+			}
+			frames := map[*py.Frame]c12Prev{}
+			seenTrans := map[uint64]struct{}{}
+			seenInit := map[int32]struct{}{}
+			var trans, inits []string
+			// [C12-ext2 g3] end
 			var n int64
 			aborted := false
 			skipNext := false
@@ -468,8 +595,29 @@ func init() {
 				if strings.Contains(key, "I") {
 					dk = c12IntRe.ReplaceAllString(key, "I*")
 				}
-				if _, dup := seen[dk]; !dup {
-					seen[dk] = struct{}{}
+				sid, dup := seen[dk]
+				// [C12-ext2 g3] begin
+				if !dup {
+					sid = int32(len(seen))
+				}
+				{
+					idxEnd := 2 + strings.IndexByte(key[2:], ' ')
+					rest := key[idxEnd+1:]
+					if prev, ok := frames[frame]; ok {
+						tk := uint64(uint32(prev.sid))<<32 | uint64(uint32(sid))
+						if _, d := seenTrans[tk]; !d {
+							seenTrans[tk] = struct{}{}
+							trans = append(trans, "S"+key[1:idxEnd]+" "+prev.rest+" "+rest)
+						}
+					} else if _, d := seenInit[sid]; !d {
+						seenInit[sid] = struct{}{}
+						inits = append(inits, "I"+key[1:])
+					}
+					frames[frame] = c12Prev{sid, rest}
+				}
+				// [C12-ext2 g3] end
+				if !dup {
+					seen[dk] = sid
 					obs = append(obs, key)
 					stats.Opcodes[opcode.String()]++
 					if opcode == vm.END_FINALLY || opcode == vm.WITH_CLEANUP {
@@ -504,6 +652,11 @@ func init() {
 			}()
 			stats.Instructions += n
 			stats.Observations += len(obs)
+			// [C12-ext2 g3] begin
+			stats.Transitions += len(trans)
+			stats.FrameStarts += len(inits)
+			frames = nil
+			// [C12-ext2 g3] end
 			if aborted {
 				stats.Aborted++
 			}
@@ -521,6 +674,21 @@ func init() {
 				vin.WriteString(o)
 				vin.WriteByte('\n')
 			}
+			// [C12-ext2 g3] begin
+			sort.Strings(inits)
+			sort.Strings(trans)
+			for _, o := range inits {
+				vin.WriteString(o)
+				vin.WriteByte('\n')
+			}
+			for _, o := range trans {
+				vin.WriteString(o)
+				vin.WriteByte('\n')
+				if os.Getenv("C12_DEBUG") != "" {
+					fmt.Fprintln(os.Stderr, o)
+				}
+			}
+			// [C12-ext2 g3] end
 			vin.WriteString("E\n")
 			if err := vin.Flush(); err != nil {
 				return "VERIFIER-DIED:" + err.Error(), "-"
@@ -530,6 +698,20 @@ func init() {
 				return "VERIFIER-DIED:" + err.Error(), "-"
 			}
 			reply = strings.TrimSpace(reply)
+			// [C12-ext2 g1] begin: gpython's StackDepth() (Lean model) evaluated on every emitted object by the co-process
+			if strings.HasPrefix(reply, "ok ") {
+				if stats.Depth == nil {
+					stats.Depth = map[string]int{}
+				}
+				for _, tok := range strings.Fields(reply) {
+					if kv := strings.SplitN(tok, "=", 2); len(kv) == 2 && strings.HasPrefix(kv[0], "d") && kv[0] != "depth" {
+						if v, err := strconv.Atoi(kv[1]); err == nil {
+							stats.Depth[kv[0]] += v
+						}
+					}
+				}
+			}
+			// [C12-ext2 g1] end
 			flushStats()
 			r := fmt.Sprintf("instr=%d run=%s", n, runErr)
 			if aborted {
